@@ -25,7 +25,7 @@ the `notes`/`meta.json` of the change. `detected` = exit 1 + VIOLATION line.
 |---|---|---|---|
 %s
 
-Changes that were first missed and led to stronger checks (60 of 216): round 1 (4 of 36) - C07-b,
+Changes that were first missed and led to stronger checks (70 of 251): round 1 (4 of 36) - C07-b,
 C08-a, C08-b, C11-b; round 2 (14 of 36) - C02-c, C07-d, C08-c, C08-d, C09-d, C10-c, C10-d, C11-c,
 C12-c, C13-d, C14-d, C15-d, C17-c, C18-c; round 3 (11 of 36) - C02-e, C02-f, C04-f, C06-f, C09-f,
 C11-f, C12-e, C13-f, C17-f, C18-e, C18-f; round 4 (13 of 36) - C02-h, C03-h, C05-g, C07-h, C08-h,
@@ -33,10 +33,19 @@ C13-g, C14-g, C15-g, C15-h, C16-g, C17-g, C17-h, C18-h; round 5 (5 of 36) - C07-
 C13-i, C14-j; round 6 (8 of 36) - C10-l, C11-k, C13-l, C15-k, C15-l (the generated program died: inconclusive,
 not a detection), C17-k, C17-l, C18-l (for C13-l, C15-k, C17-k, C18-l the additions were written from the
 descriptions of the triggers before the first run; that the previous version of the checks misses them was
-confirmed afterwards with a checkout of the previous commit of /verif). What was added for each is in section 8. Release-only changes (C01-d, C03-c, C05-c,
-C05-h, C12-i, C13-f) and debug-only ones (C03-h, C05-j, C06-j, C07-j, C10-f, C11-h, C15-l, C18-l) are caught
-because every behavioural check runs a build with and a build without debug assertions. After the
-last round the complete set was re-run against the final checks (tools/recheck_all.sh): all detected.
+confirmed afterwards with a checkout of the previous commit of /verif); round 7 (10 of 35) - C07-n, C09-n,
+C10-n, C11-m, C13-n, C14-m, C15-m, C17-m, C17-n, C18-m (all ten additions were written from the trigger descriptions
+first; each change was then run against a checkout of the previous commit of /verif, which missed it, and against
+the new checks, which detect it). A 36th change of round 7, C18-n, is not kept: it does not break C18 as stated
+(`seeded/_not_kept/C18-n/WHY.md`), and it exposed a false alarm of my compile-time gate, which was corrected.
+What was added for each is in section 8. Release-only changes (C01-d, C03-c, C05-c,
+C05-h, C12-i, C13-f) and debug-only ones (C03-h, C03-n, C05-j, C05-m, C06-j, C07-j, C10-f, C11-h, C15-l, C18-l) are caught
+because every behavioural check runs a build with and a build without debug assertions. Regression runs
+(tools/recheck_all.sh, every kept change against the then current checks): the complete set after round 5; C01-C11
+(a-l) and C12 a-e again after the additions of round 6, all detected; the re-run of C12 f-j and C13-C18 a-l after
+round 6 was cut short for time (the additions since then are new workloads and new laws; nothing was removed except
+the iterator `Send`/`Sync` assertions of the C18 gate, which none of the kept C18 changes relied on: their first
+signatures are in the table).
 """ % (len(rows), "\n".join(rows))
 p = os.path.join(V, "DESIGN.md")
 s = open(p).read()
